@@ -67,6 +67,16 @@ CLAIMED = {
         technique="symbolic execution of both descriptions + z3 equivalence queries (If-resolution, abs canonicalisation, "
                   "rational normal form, NRA); counterexamples replayed on the real pipeflow",
         design="4/C09"),
+    "C12": dict(
+        text="Bounded model checking over histories of the real pipeflow: (purity) every input cell, fluid, std types, "
+             "stored user options and defaults are unchanged after a symbolic run; (history) the last call of each "
+             "enumerated history (other modes/options, forced failures, edited-and-restored loads; earlier calls on their "
+             "own symbol families) is proved equal to a call on a fresh net - Newton systems and all results, for all "
+             "values, with and without havoc of the iterate - and no symbol of an earlier call occurs in any result; "
+             "(heat) mode='heat' from a stored hydraulic solution equals mode='sequential'.",
+        technique="symbolic execution of call histories + z3 equivalence queries and free-variable (taint) check; "
+                  "counterexamples replayed on the real pipeflow",
+        design="4/C12"),
     "C14": dict(
         text="CrossHair executes the real init_options / _iteration_check / _mode_check / set_user_pf_options symbolically "
              "(z3) on dict layers built from symbolic presence flags and values; for each key cluster the documented "
